@@ -360,3 +360,29 @@ theorem c14_restore_shape_matches_source :
   decide
 
 end Regatta.Props.C14
+
+namespace Regatta.Props.C14
+open Regatta.Meta
+
+/-- **while a restore loads, every node is asked to start its recovery shard**: once the record is
+marked (`c14_restore_mark`), reconciliation on any node where shard `id` is not running lists `id`
+among the shards to start - this is what gives the recovery shard its quorum when the restore was
+asked of another node (seeded change C14-c started the table's serving shard a second time instead) -
+and never lists it among the shards to stop.  (`hglob`: the catalogue glob matches the record's key - true of
+every valid name, which contains no `/`; the listings of the catalog and catreal runs compare exactly this.) -/
+theorem c14_recovery_shard_is_started (w : World) (name : String) (c id ver : Nat) (running : List Nat)
+    (hrec : ⟨tableKey name, .table ⟨name, c, id⟩, ver⟩ ∈ w.store)
+    (hglob : globMatch "/tables/*" (tableKey name) = true)
+    (hid : tableIDsRangeStart < id) :
+    (id ∉ running → id ∈ (diffTables w.tables running).1) ∧ id ∉ (diffTables w.tables running).2 := by
+  have hmem : (⟨name, c, id⟩ : Table) ∈ w.tables :=
+    (c14_tables_reflect w ⟨name, c, id⟩).mpr ⟨_, hrec, rfl, hglob⟩
+  have hne : id ≠ 0 := by omega
+  constructor
+  · intro hnr
+    exact ((c14_diff w.tables running id).1).mpr ⟨⟨_, hmem, Or.inr rfl⟩, hne, hnr, hid⟩
+  · intro hstop
+    have := ((c14_diff w.tables running id).2).mp hstop
+    exact this.2.1 ⟨⟨_, hmem, Or.inr rfl⟩, hne⟩
+
+end Regatta.Props.C14
